@@ -161,7 +161,13 @@ def run_monitor(case):
         fname = (lambda j: d) if case.get("dir_filename") else (lambda j: os.path.join(d, f"m{j}"))
         mons = [M.Monitor(e, filename=fname(j), allow_early_resets=case["allow"], info_keywords=kw, reset_keywords=rkw) for j, e in enumerate(envs[:n_first])]
         events = []
-        for o in case["ops"]:
+        mid_rows = {}
+        n_ops = len(case["ops"])
+        read_at = {n_ops // 3, (2 * n_ops) // 3}
+        for idx, o in enumerate(case["ops"]):
+            if idx in read_at and idx > 0 and len(mons) == n_first:
+                # read the files back in the MIDDLE of the history (monitors still open): every episode finished so far must be there
+                mid_rows[idx] = _safe(lambda: _rows(M.load_results(d), kw + rkw))
             w, op = o[0], o[1]
             if w == n_first and len(mons) == n_first:
                 mons[0].close()
@@ -196,7 +202,7 @@ def run_monitor(case):
             m.close()
         dir_file_ok = (not case.get("dir_filename")) or os.path.exists(os.path.join(d, "monitor.csv"))
         rows = _rows(M.load_results(d), kw + rkw)
-        return {"events": events, "stats": stats, "rows": rows, "empty_dir_raises": empty_dir_raises,
+        return {"events": events, "stats": stats, "rows": rows, "mid_rows": mid_rows, "empty_dir_raises": empty_dir_raises,
                 "dir_file_ok": dir_file_ok}
     finally:
         shutil.rmtree(d, ignore_errors=True)
@@ -418,7 +424,9 @@ def compare_monitor(case, impl, mv):
     per_mon_eps = {w: [] for w in cur}
     last_kw = {}
     rkw = bool(case.get("reset_kw"))
+    rows_before = {}
     for n, ev in enumerate(impl["events"]):
+        rows_before[n] = list(expected_rows)
         w = ev["w"]
         if ev["op"] == "r_missing":
             refused_first = ev["out"] == "RuntimeError" and not case["allow"] and cur[w] is not None   # the early-reset refusal comes first
@@ -463,6 +471,12 @@ def compare_monitor(case, impl, mv):
                 cur[w] = None
             elif ev["ep"] is not None:
                 probs.append(("oracle-monitor-spurious-episode-info", f"op {n}: 'episode' entry on a step that does not end the episode"))
+    for idx, got in impl.get("mid_rows", {}).items():
+        want_mid = rows_before.get(int(idx), [])
+        if isinstance(got, dict):
+            probs.append(("oracle-monitor-file-unreadable-while-open", f"load_results before operation {idx} (monitors still open) raises {got['raised']}"))
+        elif not _rows_close(got, want_mid, case):
+            probs.append(("oracle-monitor-file-rows-while-open", f"load_results before operation {idx} (monitors still open) lists {got}, episodes finished so far {want_mid}"))
     if case.get("append") and not _rows_close(impl["rows"], expected_rows, case) and _rows_multiset_close(impl["rows"], expected_rows, case):
         # known class, precise predicate: a Monitor re-opened the file with override_existing=False; the rows are all there but load_results,
         # which sorts by t, lists the appended episodes (whose t restarts at the new monitor's start) among the earlier ones
@@ -606,6 +620,8 @@ COMPARE = {"monitor": compare_monitor, "vecmon": compare_vecmon, "eval": compare
 
 
 def nontrivial(case, impl):
+    if "raised" in impl:
+        return False
     if case["kind"] == "monitor":
         evs = impl["events"]
         ended = sum(1 for e in evs if e["op"] == "s" and e["out"] == "ok" and (e["term"] or e["trunc"]))
@@ -630,15 +646,42 @@ def nontrivial(case, impl):
     return k >= 2 and len(lens) >= 2 and (n % k != 0 or n < k)
 
 
+def _safe(fn, *args):
+    """a call into the implementation (or a decoder of what it returned): an exception is a finding about this input, not a crash of the check"""
+    try:
+        return fn(*args)
+    except Exception as e:  # noqa: BLE001
+        import traceback
+
+        tb = traceback.extract_tb(e.__traceback__)
+        where = next((f"{os.path.basename(f.filename)}:{f.lineno}" for f in reversed(tb) if "/stable_baselines3/" in f.filename), "harness")
+        return {"raised": f"{type(e).__name__}: {e} (at {where})", "traceback": traceback.format_exc()[-2500:]}
+
+
+RAISED_SIG = "oracle-implementation-raised"
+
+
 def run_cases(chk, cases):
-    impls = [RUN[c["kind"]](c) for c in cases]
+    impls = [_safe(RUN[c["kind"]], c) for c in cases]
     exprs, spans = [], []
     for c, im in zip(cases, impls):
-        e = model_exprs(c, im)
+        e = ["true"] if "raised" in im else _safe(model_exprs, c, im)
+        if isinstance(e, dict):        # the output could not even be turned into a model query
+            im.update(e)
+            e = ["true"]
         spans.append((len(exprs), len(exprs) + len(e)))
         exprs += e
     vals = common.coq_eval_many(chk.pid, HEADER, exprs, shard=150, procs=4)
-    results = [COMPARE[c["kind"]](c, im, vals[a:b]) for c, im, (a, b) in zip(cases, impls, spans)]
+    results = []
+    for c, im, (a, b) in zip(cases, impls, spans):
+        if "raised" in im:
+            results.append([(RAISED_SIG, "the implementation raises (or returns something unusable) on a legal input: " + im["raised"])])
+            continue
+        r = _safe(COMPARE[c["kind"]], c, im, vals[a:b])
+        if isinstance(r, dict):
+            im.update(r)
+            r = [(RAISED_SIG, "the implementation's output cannot be compared (unexpected shape / missing value): " + r["raised"])]
+        results.append(r)
     return impls, results
 
 
@@ -683,13 +726,13 @@ def main():
         if nontrivial(c, im):
             distinct.add(json.dumps({k: c[k] for k in c if k != "id"}, sort_keys=True))
         if probs:
-            oracle_bad = [p for p in probs if p[0].startswith("oracle-") or p[0] == APPEND_SIG]
+            oracle_bad = [p for p in probs if p[0].startswith("oracle-") or p[0] == APPEND_SIG]   # (RAISED_SIG starts with oracle-)
             sig = oracle_bad[0][0] if oracle_bad else "model-correspondence-" + probs[0][0]
             if sig in reported:
                 continue
             reported.add(sig)
             chk.violation(sig, "; ".join(m for _, m in (oracle_bad or probs)[:3]),
-                          {"case": c, "problems": probs[:10],
+                          {"case": c, "problems": probs[:10], "traceback": im.get("traceback"),
                            "correspondence": "harness/c18.py vs Model.Monitor.mon_env_run / vm_scripted_run / Model.Evaluate.evaluate_scripted"},
                           found_input=bool(oracle_bad))
             if len(reported) >= 3:
